@@ -202,12 +202,14 @@ static void fam_execute_recall(Result& R, Rng& r) {
 struct Latch { std::mutex m; std::condition_variable cv; long left; explicit Latch(long n) : left(n) {} void hit() { std::lock_guard<std::mutex> l(m); if (--left == 0) cv.notify_all(); } void wait() { std::unique_lock<std::mutex> l(m); cv.wait(l, [&] { return left == 0; }); } };
 static void fam_enqueue(Result& R, Rng& r) {
     // never (n,n) with n>=2: such an arena has no slot a worker may take, enqueued work legitimately waits for an external thread
-    static const int shapes[][2] = { { 1, 1 }, { 1, 0 }, { 2, 1 }, { 2, 0 }, { 4, 0 }, { 4, 2 }, { 8, 1 }, { 16, 0 } };
+    // the last three shapes have more than 32 slots: their task streams get 64 lanes (the population mask needs all 64 bits)
+    static const int shapes[][2] = { { 1, 1 }, { 1, 0 }, { 2, 1 }, { 2, 0 }, { 4, 0 }, { 4, 2 }, { 8, 1 }, { 16, 0 }, { 33, 0 }, { 40, 1 }, { 64, 0 } };
     int narenas = r.chance(1, 3) ? 2 + (int)r.below(4) : 1;
     std::vector<std::unique_ptr<tbb::task_arena>> arenas;
-    std::string shp;
+    std::string shp; bool big_arena = false;
     for (int i = 0; i < narenas; i++) {
-        auto& sh = shapes[r.below(8)];
+        auto& sh = shapes[r.below(11)];
+        if (sh[0] > 32) big_arena = true;
         tbb::task_arena::priority pr = r.chance(1, 3) ? tbb::task_arena::priority::high : r.chance(1, 2) ? tbb::task_arena::priority::low : tbb::task_arena::priority::normal;
         arenas.emplace_back(new tbb::task_arena(sh[0], sh[1], pr)); arenas.back()->initialize();
         shp += "(" + std::to_string(sh[0]) + "," + std::to_string(sh[1]) + "," + (pr == tbb::task_arena::priority::high ? "H" : pr == tbb::task_arena::priority::low ? "L" : "N") + ")";
@@ -236,7 +238,7 @@ static void fam_enqueue(Result& R, Rng& r) {
     });
     if (ncomp) sleep_us(200 + (unsigned)r.below(1500));
     for (int rd = 0; rd < rounds; rd++) {
-        int per = 1 + (int)r.below(5);
+        int per = 1 + (int)r.below(5); if (big_arena && r.chance(2, 3)) per = 20 + (int)r.below(150);
         long total = (long)submitters * per;
         Json pj; pj.obj(); pj.kv("arenas", shp); pj.kv("zero_workers", zero_workers); pj.kv("global_control_toggled", toggler); pj.kv("submitters", submitters); pj.kv("tasks", total); pj.kv("competitor_threads_with_spawned_work", ncomp); pj.end_obj();
         g_cur.set("enqueue", pj.s, total);
@@ -260,6 +262,7 @@ static void fam_enqueue(Result& R, Rng& r) {
         sleep_us(1000 + (unsigned)r.below(9000));   // idle gap: workers fall asleep, mandatory concurrency is switched off again
     }
     cstop = true; for (auto& t : comp) t.join();
+    if (big_arena) R.stat("enqueue.scenarios_with_an_arena_of_more_than_32_slots");
     if (ncomp) { R.stat("enqueue.scenarios_with_spawned_demand_in_a_competing_arena"); if (zero_workers) R.stat("enqueue.scenarios_with_spawned_demand_in_a_competing_arena_and_no_workers"); R.stat("enqueue.competitor_groups", comp_groups.load()); }
     if (toggler) { tstop = true; tog.join(); }
 }
